@@ -34,6 +34,8 @@ def free_programs(scheds, pid, tier, seed, count, block=False):
         out.append(dict(id="%s-%s-f%d" % (pid, tier[0], i), role=rnd.choice(["server", "client"]), wbuf=rnd.choice([16, 64, 200]),
                         progs=pr, sched=[], faultAt=rnd.choice([0, 0, 0, 2, 4]), free=True, seed=rnd.randrange(1, 1 << 30),
                         blockms=(rnd.choice([0, 0, 45]) if block else 0)))
+        # large WriteMessage payloads: several frames per call (client) / the direct-write path (server)
+        out[-1]["scale"] = rnd.choice([1, 1, 3 * out[-1]["wbuf"] + 30])
     return out
 
 
